@@ -30,6 +30,7 @@ var primSet = map[string]bool{
 	"time.Now": true, "time.NewTicker": true, "(*time.Ticker).Stop": true, "(time.Time).Add": true, "(time.Time).Before": true, "(time.Time).IsZero": true,
 	"context.WithCancel": true, "context.Background": true, "runtime.NumCPU": true,
 	"fmt.Errorf": true, "fmt.Sprintf": true, "errors.New": true, "errors.Is": true,
+	"fmt.Println": true, "fmt.Printf": true, "fmt.Print": true, "log.Println": true, "log.Printf": true, "log.Print": true,
 	"reflect.ValueOf": true, "(reflect.Value).Pointer": true,
 	"encoding/json.Marshal": true, "encoding/json.Unmarshal": true,
 }
@@ -187,6 +188,12 @@ func (st *State) primitive(f *ssa.Function, args []Val, site ssa.Instruction) (V
 		p := recvPtr()
 		// returns when the counter is zero; other goroutines' effects on the counter: the counter is zero afterwards
 		st.store(p, TV{tInt(0), p.Elem})
+		return TupleV{}, true
+	case "fmt.Println", "fmt.Printf", "fmt.Print", "log.Println", "log.Printf", "log.Print":
+		// diagnostics: output only, no effect on the state the contracts talk about
+		if strings.HasPrefix(n, "fmt.") {
+			return TupleV{[]Val{TV{st.declare("nwritten", SInt), it}, TV{st.declare("werr", SInt), f.Signature.Results().At(1).Type()}}}, true
+		}
 		return TupleV{}, true
 	case "errors.Is":
 		// errors.Is(err, target): true when err == target, false for a nil err and a non-nil target; for anything else (wrapped
@@ -644,7 +651,9 @@ func (vc *VC) runGhost(st *State, anchor, callee string, ord int, callRes ...Val
 	if st.fr == nil {
 		return
 	}
-	if st.fr.fn != vc.fn {
+	plain := callee
+	inlined := st.fr.fn != vc.fn
+	if inlined {
 		// anchors inside an inlined callee are written "<callee key>::<anchor callee>"
 		callee = funcKey(st.fr.fn) + "::" + callee
 	}
@@ -652,10 +661,27 @@ func (vc *VC) runGhost(st *State, anchor, callee string, ord int, callRes ...Val
 		if g.anchor != anchor {
 			continue
 		}
+		viaRoot := false
 		if g.callee != "" && !calleeMatches(g.callee, callee) {
-			continue
+			// an anchor written without a frame ("before call X") also binds to a call of X that an extract-method refactoring moved into an
+			// inlined helper: it is then evaluated over the names of the function under contract (no call ordinal can be given in that case)
+			if inlined && g.ord == 0 && !strings.Contains(g.callee, "::") && calleeMatches(g.callee, plain) {
+				viaRoot = true
+			} else {
+				continue
+			}
 		}
 		if g.ord != 0 && g.ord != ord {
+			continue
+		}
+		if viaRoot {
+			root := st.fr
+			for root.parent != nil {
+				root = root.parent
+			}
+			st.ghostFrame = root
+			vc.execGhost(st, g, callRes...)
+			st.ghostFrame = nil
 			continue
 		}
 		vc.execGhost(st, g, callRes...)
